@@ -604,9 +604,14 @@ Proof.
   { apply forallb_forall. intros row Hrow. unfold sheet_rows in Hrow. apply in_map_iff in Hrow.
     destruct Hrow as (i & <- & _). apply forallb_forall. intros c Hc. apply in_map_iff in Hc.
     destruct Hc as (j & <- & _). apply member_text_prefix. }
-  unfold range_formula. revert Hall. unfold sheet_rows.
+  assert (Hl : (zlen (sheet_rows f h w) <=? h) = true).
+  { apply Z.leb_le. unfold zlen, sheet_rows. rewrite map_length, seq_length. lia. }
+  assert (Hw' : (zlen (hd [] (sheet_rows f h w)) <=? w) = true).
+  { unfold sheet_rows. destruct (Z.to_nat h) as [|n] eqn:Eh; [lia|]. cbn [seq map hd].
+    apply Z.leb_le. unfold zlen. rewrite map_length, seq_length. lia. }
+  unfold range_formula. revert Hall Hl Hw'. unfold sheet_rows.
   destruct (Z.to_nat h) as [|n] eqn:Eh; [lia|]. destruct (Z.to_nat w) as [|m] eqn:Ew; [lia|].
-  cbn [seq map]. intros Hall. rewrite Hall. reflexivity.
+  cbn [seq map]. intros Hall Hl Hw'. rewrite Hall, Hl, Hw'. reflexivity.
 Qed.
 
 (* a range that does not start at member (1, 1) has no formula of its own: its
@@ -626,14 +631,11 @@ Proof. split; reflexivity. Qed.
 Example ex_members_matrix_hyps : all_scalar m23 /\ rectangular 3 m23 /\ m23 <> [].
 Proof. split; [|split]; [repeat constructor|repeat constructor|discriminate]. Qed.
 
-(* C13_range_shows_members_partial: the reference range of an array formula,
-   read back from the sheet, is that formula's range, and evaluating it gives
-   at every position what the member cell there shows (a blank as 0 in the cell).
-   MISSING for the full statement (every range of the sheet shows its cells'
-   own values): ranges that start at the reference range's top left and run on
-   into another array formula whose text starts with the same text — refuted
-   in Refuted/C13_adjacent_ranges.v *)
-Theorem range_shows_members_partial f rows C h w :
+(* C13_range_shows_members: the reference range of an array formula, read back
+   from the sheet, is that formula's range, and evaluating it gives at every
+   position what the member cell there shows (a blank as 0 in the cell).  For
+   every range of the sheet: Proofs/C13Ranges.v range_shows_cells *)
+Theorem range_shows_members f rows C h w :
   rows <> [] -> (1 <= C)%nat -> rectangular C rows -> all_scalar rows -> 1 <= h -> 1 <= w ->
   range_formula (sheet_rows f h w) = Some f /\
   exists out M, cse_range_value h w (matrix rows) = Ok (matrix out)
